@@ -156,6 +156,7 @@ theorem fold_wfd (n : Nat) : ∀ (t : Tree) (c x : Ctx), WFD n c → fold n t c 
   | .leaf (.write _), c, x, h, hv => by simp only [fold, foldElem] at hv; cases hv; exact h
   | .leaf (.cache _), c, x, h, hv => by simp only [fold, foldElem] at hv; cases hv; exact h
   | .leaf .data, c, x, h, hv => by simp only [fold, foldElem] at hv; cases hv; exact h
+  | .leaf (.mut ..), c, x, h, hv => by simp only [fold, foldElem] at hv; cases hv; exact h
   | .leaf .src, c, x, h, hv => by simp only [fold, foldElem] at hv; cases hv; exact h
   | .seq _ cs, c, x, h, hv => by
     simp only [fold] at hv
